@@ -60,12 +60,15 @@ def check(ctx, prefix="pipeline"):
     cbad = []
     for k, r in dp["commit"].items():
         want = ["R%d" % j if j != k else "ALUOUT" for j in range(8)]
+        if k != 4:
+            want[4] = "F(R4)"      # the flag update, applied to the old flag register; for k == 4 the register write wins (LDFR)
         if (r["regs"] != want or r["flags"] != {"C": ["CO"], "Z": ["ZO"], "N": ["NO"]} or r["bad"]
                 or not r["prw_cleared"] or not r["pfw_cleared"]):
             cbad.append((k, r))
     chk.ob("%s/commit" % prefix, not cbad and len(dp["commit"]) == 9,
            "the commit stage writes exactly the pending register with the ALU output, sets C/Z/N from the ALU's carry/zero/negative "
-           "outputs and clears both pending markers",
+           "outputs - before the register write, so that a write to the flag register itself (LDFR) is not overlaid - and clears "
+           "both pending markers",
            "raw/mod.rs RawMachine::apply_pending_register_writes", "disagreeing cases: %s" % cbad[:2])
     # 4. flag bit positions: setter and getter of each flag agree on one bit of R4, the others are kept
     fb = []
